@@ -1029,11 +1029,15 @@ impl HomeRelayWatch {
     /// Set the home relay URL and status. Used by [`RelayActor`] on relay changes.
     fn set(&self, url: RelayUrl, state: RelayConnectionState) {
         let _ = self.inner.set(Some(RelayStatus::new(url, state)));
+        #[cfg(iroh_verif)]
+        self.verif_event("c26.set", None);
     }
 
     /// Clear the home relay (no preferred relay). Used by [`RelayActor`].
     fn clear(&self) {
         let _ = self.inner.set(None);
+        #[cfg(iroh_verif)]
+        self.verif_event("c26.clear", None);
     }
 
     /// Update the status, but only if `url` is still the current home relay.
@@ -1044,7 +1048,14 @@ impl HomeRelayWatch {
     /// the time the old actor tries to write, the URL no longer matches.
     fn set_status(&self, url: &RelayUrl, state: RelayConnectionState) {
         if self.inner.get().as_ref().map(RelayStatus::url) == Some(url) {
+            #[cfg(iroh_verif)]
+            {
+                self.verif_event("c26.read", Some(url));
+                iroh_dns::verif::pause(&format!("c26.set_status.between:{url}"));
+            }
             let _ = self.inner.set(Some(RelayStatus::new(url.clone(), state)));
+            #[cfg(iroh_verif)]
+            self.verif_event("c26.write", Some(url));
         }
     }
 
@@ -1054,6 +1065,56 @@ impl HomeRelayWatch {
 
     pub(crate) fn watch(&self) -> n0_watcher::Direct<Option<RelayStatus>> {
         self.inner.watch()
+    }
+}
+
+/// Verification hooks (only with `--cfg iroh_verif`), used by `crate::verif_hooks_netrep`.
+#[cfg(iroh_verif)]
+impl HomeRelayWatch {
+    /// Records `label` with the calling actor's URL and the value of the watchable.
+    fn verif_event(&self, label: &str, actor: Option<&RelayUrl>) {
+        let home = self.inner.get();
+        let (url, state) = match &home {
+            None => ("none".to_string(), "none"),
+            Some(status) => (
+                status.url().to_string(),
+                if status.is_connected() {
+                    "Connected"
+                } else if status.last_error().is_some() {
+                    "Disconnected"
+                } else {
+                    "Connecting"
+                },
+            ),
+        };
+        iroh_dns::verif::event(
+            label,
+            &[
+                ("actor", actor.map(|u| u.to_string()).unwrap_or_default()),
+                ("home", url),
+                ("state", state.to_string()),
+            ],
+        );
+    }
+
+    /// Calls [`HomeRelayWatch::set`].
+    pub(crate) fn verif_set(&self, url: RelayUrl, state: RelayConnectionState) {
+        self.set(url, state);
+    }
+
+    /// Calls [`HomeRelayWatch::clear`].
+    pub(crate) fn verif_clear(&self) {
+        self.clear();
+    }
+
+    /// Calls [`HomeRelayWatch::set_status`].
+    pub(crate) fn verif_set_status(&self, url: &RelayUrl, state: RelayConnectionState) {
+        self.set_status(url, state);
+    }
+
+    /// Calls [`HomeRelayWatch::get`].
+    pub(crate) fn verif_get(&self) -> Option<RelayStatus> {
+        self.get()
     }
 }
 
